@@ -1225,8 +1225,70 @@ func (r *real) Exec(line string) (out string) {
 		return r.multiVal()
 	case "real.regrace":
 		return regRace()
+	case "real.watchrace":
+		n, _ := strconv.Atoi(first(args))
+		return r.watchRace(n)
 	}
 	return "bad-op"
+}
+
+// watchRace: n times, one client calls Watch(replay, all records) while another writes the record once, at a
+// random moment around the call.  Whatever the interleaving, the watcher must end up shown the written version
+// (register-before-replay): a write that falls between the replay read and a LATE registration would be lost.
+func (r *real) watchRace(n int) string {
+	if n <= 0 {
+		n = 100
+	}
+	probe := &lobj{id: "race", ty: "ty", tv: "1", key: "race", tgt: "t", txi: 1}
+	if err := r.a.create(probe); err != nil {
+		return "err " + errClass(err)
+	}
+	ek := r.eventKey(probe, r.createKey(probe))
+	seed := uint64(12345)
+	for i := 0; i < n; i++ {
+		ctx, cancel := context.WithCancel(context.Background())
+		w := &rwatch{name: "x", stopCh: make(chan struct{}), last: map[string]uint64{}, after: map[string]bool{}, events: new(int64)}
+		seed = seed*6364136223846793005 + 1442695040888963407
+		jitter := time.Duration(seed>>40%400) * time.Microsecond
+		var wg sync.WaitGroup
+		wg.Add(2)
+		var werr error
+		go func() {
+			defer wg.Done()
+			werr = r.a.watch(ctx, "", true, w)
+		}()
+		go func() {
+			defer wg.Done()
+			time.Sleep(jitter)
+			_ = r.a.updateStatus(probe)
+		}()
+		wg.Wait()
+		if werr != nil {
+			cancel()
+			return "err " + errClass(werr)
+		}
+		ok := false
+		deadline := time.Now().Add(r.deadline)
+		for time.Now().Before(deadline) {
+			w.mu.Lock()
+			v := w.last[ek]
+			w.mu.Unlock()
+			if v == probe.ver {
+				ok = true
+				break
+			}
+			time.Sleep(200 * time.Microsecond)
+		}
+		if r.kind != "tx3" {
+			cancel()
+		} else {
+			_ = cancel
+		}
+		if !ok {
+			return "lost"
+		}
+	}
+	return "ok"
 }
 
 // settle: the Events() call of an atomix Map (a primitive partitioned over three partitions) returns when the
